@@ -163,6 +163,16 @@ PROPS = {
         "technique": "property-based testing (rapid) of schedules inside testing/synctest bubbles (owned scheduler + fake clock) and race-detector stress",
         "legs": [raceleg("^TestC11Owned$", 400, 5000), raceleg("^TestC11Free$", 300, 4000)],
     },
+    "C19": {
+        "title": "A PreparedMessage equals WriteMessage on every connection it is sent to",
+        "level": "exploration",
+        "rule": "one PreparedMessage (text/binary/ping/pong/close; payload sizes incl. 0, 125/126, 4095-4097, 8191-8222, 65535/65536, 70000, random) and a rapid-generated history of sends to a population of 1-8 connections ({client,server} x {compression negotiated or not} x write buffer), interleaved with EnableWriteCompression / SetCompressionLevel(-2..9) changes on those connections and with scribbling over the caller's slice after creation. Oracle per send: the bytes that connection's transport received decode (independent decoder) to exactly one complete message of the prepared type whose unmasked / inflated payload equals the ORIGINAL payload, masked iff client, RSV1 only if negotiated+enabled+data at the time of the call; differential: a fresh twin connection with the same role and settings history given WriteMessage(type, payload) sends the same message in the same compressed/uncompressed variant; after a prepared close nothing more is written and sends fail with ErrCloseSent; an oversized prepared control message is refused and writes nothing. part prepared-concurrent (-race binary): the per-connection histories run in parallel goroutines sharing the one PreparedMessage; oracle adds: race detector report unchanged. Non-trivial = sent to >=2 connections, or a setting changed between two sends to one connection, or the caller's slice mutated, or concurrent.",
+        "assumptions": TRUST,
+        "level_text": "Bounded random exploration of send histories over connection populations with a per-send decode + differential oracle.",
+        "level_note": "Twin connections are created per send through the public API.",
+        "technique": "property-based testing (rapid): generated send histories, independent-decoder + differential (WriteMessage twin) oracle; race-detector leg",
+        "legs": [leg("^TestC19$", 2500, 25000, qshards=8), raceleg("^TestC19Conc$", 200, 3000)],
+    },
 }
 
 NOT_APPLICABLE = [
